@@ -268,6 +268,12 @@ class SimIOLoop(SimLoop):
     def _ensure_fd_no_transport(self, fd):
         pass
 
+    def _make_socket_transport(self, sock, protocol, waiter=None, *, extra=None, server=None):
+        # what BaseSelectorEventLoop does: lets loop.create_connection(sock=...) / connect_accepted_socket() run
+        # unchanged on a SimSocket
+        from asyncio import selector_events
+        return selector_events._SelectorSocketTransport(self, sock, protocol, waiter, extra, server)
+
     def _poll(self):
         ready = []
         socks = self.kern.socks
